@@ -86,9 +86,12 @@ CLAIMED = {
             '3/C14', None),
     'C15': ('Geometry part for all radii in mm-scale ranges: equal-volume radii reproduce fluid and pipe-wall volume (independent '
             'cross-section formulas for double-U and coaxial), legs of the equivalent tube inside the possibly enlarged borehole and not '
-            'overlapping, original borehole/grout not aliased, SingleUTube converts to itself.',
-            'NOT claimed: both resistance-matching root solves (Gnielinski/Colebrook, multipole: not encodable). sqrt with defining '
-            'equation, ln uninterpreted with product rule.', '3/C15', None),
+            'overlapping, original borehole/grout not aliased, SingleUTube converts to itself. Resistance matching for 4 concrete '
+            'geometries and all conductivities/flows: real constructors, to_single, both objectives and solve_root over a contract model '
+            'of pygfunction; grout objective strictly increasing in the trial conductivity, and on bracketed paths R_b*, R_fp and the '
+            'stored delta circuit equal the solved values (the grout clauses are a KNOWN FINDING on this tree).',
+            'NOT claimed: that the brackets contain the roots (Gnielinski/Colebrook, multipole numerics: not encodable; pygfunction is a '
+            'contract stub). sqrt with defining equation, ln uninterpreted with product rule, brentq as exact root.', '3/C15', None),
     'C16': ('For each concrete polygon (12 hand-made incl. the demo outline + 48 seeded lattice polygons quick; all 3-4 vertex lattice polygons '
             'thorough) the classification is proved for every real test point and tolerance against an independent crossing-number oracle '
             'with the opposite half-open convention.',
